@@ -432,7 +432,7 @@ func c09FirstCalls(c *core.Ctx) {
 func runC09(c *core.Ctx) {
 	c09FirstCalls(c)
 	entries := c09Entries()
-	per := c.N(3000, 600000)
+	per := c.N(3000, 1500000)
 	for ei, e := range entries {
 		mon := "entry-" + e.name
 		const chunk = 250
